@@ -13,6 +13,7 @@ import os
 BASE_TRUST = [
     "Lean 4.33 kernel; axioms limited to propext, Classical.choice, Quot.sound (audited per theorem with #print axioms)",
     "correspondence check: Go harness (verif/harness) + abs() + JSON line protocol + Lean driver decoding; generator reach is measured (op_histogram), not proven",
+    "where a property has `*_generated_*` theorems: the Go->Lean translator verif/gen (go/ast; int64 as Z, sdk.Dec methods as Canine/Basic/Dec.lean, Quo partial) that regenerates Canine/Generated/PureFns.lean from /repo on every run",
     "modelled, not verified: cosmos-sdk bank/auth keepers as a ledger, IAVL/cachekv store as a map, protobuf codecs, sdk coin parsers (oracle input), strings.ToLower (applied by the harness)",
 ]
 
